@@ -344,6 +344,10 @@ def main(chk):
     rtg_cases(chk, rng, 100 if q else 5000)
     a2c_cases(chk, rng, 40 if q else 1500)
     ppo_cases(chk, rng, 6 if q else 60)
+    # learning signals computed from sampled subtrajectories (MR.Q critic target, encoder loss): nothing after the first terminated step matters
+    import c03_repr
+    st, enc, enc_t = c03_repr.mrq_cases(chk, rng, 6 if q else 100)
+    c03_repr.encoder_cases(chk, rng, 15 if q else 300, st, enc, enc_t)
     chk.sample({"kind": "gae", "note": "dyadic rewards/values k/4, gamma and lambda in {0,1/2,1}, T in 1..24, termination at first/last/several/none; "
                                         "each case is also re-run after perturbing pre-t steps and post-termination steps (bitwise comparison)"})
     return chk.finish(
